@@ -78,7 +78,7 @@ def run_sched(ctx, prop, modules, theorems):
     # absolute paths: core.overlay_json joins with REPO, os.path.join keeps an absolute second argument
     for k, v in runtime_overlay(ctx).items():
         overlay[k] = v
-    env = {"VERIF_N": ctx.scale(160, 4000)}
+    env = {"VERIF_N": ctx.scale(160, 4000), "VERIF_CORPUS": os.path.join(core.ROOT, "corpus", "C01")}
     run = "^(TestVerifSched|TestVerifSchedWitness|TestVerifSchedDeadlockCorpus)$"
     if ctx.replay:
         env["VERIF_REPLAY"] = ctx.replay_line_file()
